@@ -16,7 +16,7 @@
 (* alone determines the tree.  An operand may be a lower-level construct   *)
 (* only inside parentheses, so `2 ^ -x`, `$-1`, `a !b`, `a ? b : c = d`,   *)
 (* `!x = y`, `1 && x = 1`, `$$i++`, `a ++b`, `a < b | getline`,            *)
-(* `x = "c" | getline` are outside its language (real awks accept them     *)
+(* `x = "c" | getline`, `print B[a > b]` are outside its language (real awks accept them     *)
 (* through yacc shift preferences, not through the table) and are never    *)
 (* judged; MinParen writes one pair of parentheses more in those places.   *)
 (***************************************************************************)
@@ -175,7 +175,9 @@ PField(e, np) == IF e.k = "pre" \/ Lvl(e) >= LField THEN M(e, np) ELSE Par(e)
 M(t, np) ==
   CASE t.k = "atom" -> <<t.v>>
     [] t.k = "grp" -> Par(t.e)
-    [] t.k = "idx" -> <<t.arr, "[">> \o M(t.i, FALSE) \o <<"]">>
+    \* a subscript inside a print argument keeps the exclusion of > and getline: awks whose lexer counts
+    \* only round brackets (gawk, mawk) read `print B[a > b]` as a redirection
+    [] t.k = "idx" -> <<t.arr, "[">> \o (IF np /\ (IsRel(t.i) \/ IsGet(t.i)) THEN Par(t.i) ELSE M(t.i, np)) \o <<"]">>
     [] t.k = "call" -> <<t.fn, "(">> \o M(t.a, FALSE) \o <<")">>
     [] t.k = "field" -> <<"$">> \o PField(t.e, np)
     [] t.k = "pre" -> <<t.op>> \o M(t.e, np)
@@ -203,7 +205,7 @@ WCatR(t) == IF t.k = "atom" /\ t.v \in ReToks THEN <<"(", t.v, ")">> ELSE W(t)
 F(t) ==
   CASE t.k = "atom" -> <<t.v>>
     [] t.k = "grp" -> <<"(">> \o F(t.e) \o <<")">>
-    [] t.k = "idx" -> <<t.arr, "[">> \o F(t.i) \o <<"]">>
+    [] t.k = "idx" -> <<t.arr, "[">> \o W(t.i) \o <<"]">>
     [] t.k = "call" -> <<t.fn, "(">> \o F(t.a) \o <<")">>
     [] t.k = "field" -> <<"$">> \o W(t.e)
     [] t.k = "pre" -> <<t.op>> \o F(t.e)
@@ -267,7 +269,8 @@ Top(s) == s[Len(s)]
 Pop(s) == SubSeq(s, 1, Len(s) - 1)
 PopN(s, k) == SubSeq(s, 1, Len(s) - k)
 Rej(ps) == [ps EXCEPT !.st = "rej", !.last = "rej"]
-Depth0(ps) == \A j \in 1..Len(ps.oprs) : ps.oprs[j].e \notin {"(", "[", "f("}
+\* not inside round brackets (square brackets do not lift the print-argument exclusions)
+Depth0(ps) == \A j \in 1..Len(ps.oprs) : ps.oprs[j].e \notin {"(", "f("}
 
 \* postfix ++ -- : the operand is an lvalue; a field lvalue has a primary as its index
 PostOK(y) == (y.k = "atom" /\ y.v \in ScalarNames) \/ y.k = "idx" \/ (y.k = "field" /\ Lvl(y.e) = LPrim)
